@@ -9,15 +9,15 @@ TB = ("Trusted: Go runtime + testing/synctest fake clock, go-ethereum keccak/sec
 
 CHECKS = {
  "C01": ("procsim", "deterministic simulation: seeded scenario programs against the real processor, independent VAA verifier as oracle over every store/broadcast diff",
-   "Seeded search over interleavings of observations, loopbacks, forged/duplicated gossip, inbound VAAs, guardian-set rotations, restarts; every VAA the node stores, broadcasts or reports is re-verified by an independent decoder/verifier against the set the statement prescribes. The unit tests call one handler with six hand-made VAAs; this drives all handlers in thousands of orders.", "3/C01"),
+   "Seeded search over interleavings of observations, loopbacks, forged/duplicated gossip, inbound VAAs, guardian-set rotations, restarts; every VAA the node stores, broadcasts or reports is re-verified by an independent decoder/verifier against the set the statement prescribes. The unit tests call one handler with six hand-made VAAs; this drives all handlers in thousands of orders. About one run in eight is a mesh run: three to six complete processors exchange their real gossip over a simulated lossy, partitioned network with crashes, guardian-set rotations and the re-observation loop; every broadcast and every store change of every node is judged by the same verifier.", "3/C01"),
  "C02": ("procsim", "deterministic simulation with a quorum/observation reference model evaluated after every delivery",
-   "Safety (never published unobserved / below quorum / twice / other body / governance emitter) and progress (published in the very step that completes an accepted quorum) checked per step against a model derived from the statement.", "3/C02"),
+   "Safety (never published unobserved / below quorum / twice / other body / governance emitter) and progress (published in the very step that completes an accepted quorum) checked per step against a model derived from the statement. Pure programs are re-executed under a permutation of their deliveries (confluence). Mesh runs add bounded liveness: 18 simulated minutes after the last fault every running member that observed a message holds its VAA, if a quorum of the set is running.", "3/C02"),
  "C03": ("procsim+p2psim", "deterministic simulation: single-mutation byzantine gossip against the real verifiers, state-unchanged oracle decided by an independent verifier",
-   "Every gossiped observation, heartbeat and re-observation request is judged by an independent verifier first; for rejected ones aggregation state, heartbeat table, outputs and store must be bit-identical before/after; includes cross-type replays, prefix confusion, truncation around the 34-byte floor, rotation of the set, the per-guardian cap.", "3/C03"),
+   "Every gossiped observation, heartbeat and re-observation request is judged by an independent verifier first; for rejected ones aggregation state, heartbeat table, outputs and store must be bit-identical before/after; includes cross-type replays, prefix confusion, truncation around the 34-byte floor, rotation of the set, the per-guardian cap. A small race-detector pass lets eight valid heartbeats from new peers hit the table in parallel just below the cap.", "3/C03"),
  "C13": ("procsim", "deterministic simulation with adversarial input histories; any recovered panic (or process death) is the violation",
-   "Every handler call and the real Run loop are executed under recover over adversarial histories (empty/oversized payloads, nil fields, inputs before the first set, empty sets, restarts, ticks of any length).", "3/C13"),
+   "Every handler call and the real Run loop are executed under recover over adversarial histories (empty/oversized payloads, nil fields, inputs before the first set, empty sets, restarts, ticks of any length). A handler or Run loop that stops consuming its inputs (parked on a queue or on the shared guardian-set state, whose mutex is a channel lock in the simulated build) is reported as well; a race-detector pass feeds gossip from several goroutines while cleanup ticks fire.", "3/C13"),
  "C14": ("procsim", "deterministic simulation on a fake clock with a time-bounded retry/expiry model checked after every cleanup pass",
-   "Cleanup passes at regular, jittered, threshold+-1ns and multi-day intervals on the synctest clock; retry cadence/content and entry lifetimes are compared with bounds taken from the statement.", "3/C14"),
+   "Cleanup passes at regular, jittered, threshold+-1ns and multi-day intervals on the synctest clock; retry cadence/content and entry lifetimes are compared with bounds taken from the statement. The Run loop is also cancelled and entered again on the same Processor (what a supervisor does), which must not lose pending entries.", "3/C14"),
 }
 EXTRA = os.path.join(V, "tools", "manifest_extra.json")
 if os.path.exists(EXTRA):
